@@ -33,70 +33,70 @@ func NewRequest(f spec.Framing, r spec.Req) (packet.Request, error) {
 		case 1:
 			q, err := packet.NewReadCoilsRequestTCP(r.Unit, r.Addr, r.Qty)
 			if err != nil {
-				return nil, err
+				return alongside(q), err
 			}
 			q.TransactionID = r.Tx
 			return q, nil
 		case 2:
 			q, err := packet.NewReadDiscreteInputsRequestTCP(r.Unit, r.Addr, r.Qty)
 			if err != nil {
-				return nil, err
+				return alongside(q), err
 			}
 			q.TransactionID = r.Tx
 			return q, nil
 		case 3:
 			q, err := packet.NewReadHoldingRegistersRequestTCP(r.Unit, r.Addr, r.Qty)
 			if err != nil {
-				return nil, err
+				return alongside(q), err
 			}
 			q.TransactionID = r.Tx
 			return q, nil
 		case 4:
 			q, err := packet.NewReadInputRegistersRequestTCP(r.Unit, r.Addr, r.Qty)
 			if err != nil {
-				return nil, err
+				return alongside(q), err
 			}
 			q.TransactionID = r.Tx
 			return q, nil
 		case 5:
 			q, err := packet.NewWriteSingleCoilRequestTCP(r.Unit, r.Addr, r.Value != 0)
 			if err != nil {
-				return nil, err
+				return alongside(q), err
 			}
 			q.TransactionID = r.Tx
 			return q, nil
 		case 6:
 			q, err := packet.NewWriteSingleRegisterRequestTCP(r.Unit, r.Addr, []byte{byte(r.Value >> 8), byte(r.Value)})
 			if err != nil {
-				return nil, err
+				return alongside(q), err
 			}
 			q.TransactionID = r.Tx
 			return q, nil
 		case 15:
 			q, err := packet.NewWriteMultipleCoilsRequestTCP(r.Unit, r.Addr, CoilsOf(r.Payload, int(r.Qty)))
 			if err != nil {
-				return nil, err
+				return alongside(q), err
 			}
 			q.TransactionID = r.Tx
 			return q, nil
 		case 16:
 			q, err := packet.NewWriteMultipleRegistersRequestTCP(r.Unit, r.Addr, r.Payload)
 			if err != nil {
-				return nil, err
+				return alongside(q), err
 			}
 			q.TransactionID = r.Tx
 			return q, nil
 		case 17:
 			q, err := packet.NewReadServerIDRequestTCP(r.Unit)
 			if err != nil {
-				return nil, err
+				return alongside(q), err
 			}
 			q.TransactionID = r.Tx
 			return q, nil
 		case 23:
 			q, err := packet.NewReadWriteMultipleRegistersRequestTCP(r.Unit, r.Addr, r.Qty, r.WAddr, r.Payload)
 			if err != nil {
-				return nil, err
+				return alongside(q), err
 			}
 			q.TransactionID = r.Tx
 			return q, nil
@@ -128,11 +128,21 @@ func NewRequest(f spec.Framing, r spec.Req) (packet.Request, error) {
 	return nil, fmt.Errorf("cat: unsupported fc %d", r.FC)
 }
 
+// nilIfErr turns the typed nil pointer a constructor returns next to its error into a nil interface; a constructor that hands out a
+// request TOGETHER with an error is passed on as it is (callers that only look at the error ignore the value, C01 judges it).
 func nilIfErr[T packet.Request](v T, err error) (packet.Request, error) {
 	if err != nil {
-		return nil, err
+		return alongside(v), err
 	}
 	return v, nil
+}
+
+// alongside returns what a constructor returned next to an error: nil for a nil pointer, else the value.
+func alongside(v packet.Request) packet.Request {
+	if IsNilValue(v) {
+		return nil
+	}
+	return v
 }
 
 // IsNilValue reports whether v is nil or a nil pointer inside an interface.
